@@ -117,7 +117,7 @@ def check_ledger(res, name, src):
         for e, p in exp:
             pm = p.meta.get(k) if p.meta is not None else None
             em = e.meta.get(k) if e.meta is not None else None
-            am = pm if (p.meta is not None and k in p.meta) else em
+            am = None if p.meta is None else (pm if k in p.meta else em)      # postings without metadata: NULL (the statement)
             want.append((pm, em, am))
         if [tuple(g) for g in got] != want:
             bad = next(((a, b) for a, b in zip(got, want) if tuple(a) != b), None)
@@ -144,6 +144,21 @@ def tables_stable(res, name, src):
     oc = getters.get_account_open_close(entries)
     conn = ledger.connect(src)
     want = sorted((a, o.date if o else None, c.date if c else None) for a, (o, c) in oc.items())
+    nposts = sum(len(e.postings) for e in entries if isinstance(e, data.Transaction))
+    nentries = len(entries)
+    for step in ['SELECT count(*) FROM CLEAR', 'SELECT count(*) FROM OPEN ON 2020-02-01 CLOSE ON 2020-03-01 CLEAR', 'SELECT count(*) FROM CLOSE ON 2020-02-01', 'BALANCES FROM OPEN ON 2020-01-15 CLEAR']:
+        res.case((name, 'tables-stable-after', step))
+        try:
+            conn.execute(step).fetchall()
+            a = conn.execute('SELECT count(*) FROM #postings').fetchall()[0][0]
+            b = conn.execute('SELECT count(*) FROM #entries').fetchall()[0][0]
+            c = len(conn.execute('SELECT date, account, position').fetchall())
+        except Exception as e:  # noqa
+            a = b = c = f'{type(e).__name__}: {e}'
+        if (a, b, c) != (nposts, nentries, nposts):
+            res.violation('h11:tables-stable-after-qualified-query', 'the postings / entries tables yield exactly the postings / directives of the ledger, whatever qualified statements ran before', {'ledger': name, 'after': step},
+                          (a, b, c), (nposts, nentries, nposts))
+            break
     steps = ['SELECT open_date("Assets:Nosuch"), close_date("Income:Nosuch:Deeper"), open_meta("Liabilities:Nosuch", "x") FROM #accounts LIMIT 1',
              "SELECT account, open_date(parent(account)), open_meta(parent(account), 'rank'), close_date(root(account, 1)) FROM #accounts",
              "SELECT open_date(account), open_date(parent(account)) FROM #postings"]
@@ -173,6 +188,11 @@ def synthetic(res):
             data.Posting('Assets:Bank:Checking', _amount.Amount(_D('-6'), 'USD'), None, None, None, None)]
     txn = data.Transaction({'filename': '<synthetic>', 'lineno': 1}, _dt.date(2020, 3, 1), '*', 'Cafe', 'two equal legs', frozenset(), frozenset(), legs)
     conn = beanquery.connect('beancount:', entries=list(entries) + [txn], errors=[], options=options)
+    res.case(('synthetic', 'meta-lookups-without-posting-metadata'))
+    got = conn.execute("SELECT meta('lineno'), entry_meta('lineno'), any_meta('lineno'), any_meta('filename'), meta('nosuch') FROM #postings WHERE narration = 'two equal legs'").fetchall()
+    want = [(None, 1, None, None, None)] * 3
+    if [tuple(r) for r in got] != want:
+        res.violation('h11:synthetic:meta-without-posting-metadata', 'meta / any_meta of a posting without metadata are NULL, entry_meta is the transaction metadata', {'transaction': 'postings built with meta=None'}, got, want)
     res.case(('synthetic', 'other_accounts'))
     got = conn.execute("SELECT account, other_accounts, number FROM #postings WHERE narration = 'two equal legs'").fetchall()
     want = [(p.account, sorted({q.account for q in legs if q is not p}), p.units.number) for p in legs]
